@@ -18,25 +18,32 @@ C  octets: valid serialisations (json/msgpack/cbor/ubjson, batched and not) unde
 
 Verdicts:
 * an exception class other than ProtocolError / InvalidUriError                  -> Violation "<Exc>:<Class>.parse:<site>"
+  (the model proves there is none: parse_total_typed)
 * an accepted message that the Spec says must not be accepted (wamp.spec)       -> Violation "uri-accepts-trailing-newline",
   "uri-strict-accepts-unicode-digit", "id-range-unchecked:<Class>.<field>", "wrong-type-accepted:<Class>.<field>"
 * an accepted message that the Spec says must be REJECTED (e.g. a non-bool value of a known role feature)
                                                                                 -> Violation "accepted-but-spec-rejects:<Class>:<site>"
+  (named "id-range-unchecked:<Class>.<field>" / "wrong-type-accepted:<Class>.<field>" when the rejecting check is that of
+  an attribute whose accepted value is an id out of range / any other value)
 * a re-marshalled message that does not parse back to the same attributes       -> Violation "reparse-...:<Class>"
 * model != real on any observable                                              -> correspondence break
 
-When a finding is repaired in /repo (what follows automatically / what to flip in the model):
+Repairs made in /repo so far and how the model follows them:
 * `for ... break ... valid = True` -> `for/else` (forward_for, 13 sites): automatic. translate/wamp_codes.py regenerates
-  `ffFixed_<Class>`; the schema then checks the items in parse (ProtocolError, authid must be str) and the
-  `AssertionError:<Class>.parse:forward_for` keys stop appearing (set their status to "fixed").
-* `$` -> `\Z`, `\d` -> `[0-9]` in the patterns: automatic (patterns are regenerated; `uri_equiv_partial`'s hypotheses
-  become vacuous, the F2 witnesses are guarded by the generated anchor / class).
-* constructor asserts replaced by ProtocolError for a whole class: set `ctorAsserts := false` in that class's schema
-  (lean/Abverif/Model/Messages.lean); the F3 witnesses are guarded by that flag.
-* an option that gets a real id check: change its `oId`/`oListInt` entry to a type with the range check (Model/Schema.lean
-  `OTy.int (some 0)` only bounds below; add the upper bound there) and drop `strict_witness_option_id_range`.
-* anything else the model mirrors by hand (marshal conditions `if self.x:`, PUBLISH's args types, WELCOME's authmethod guard):
-  edit the entry's `mm` / `ty` in Messages.lean; a stale witness theorem fails with "decide proved the proposition false".
+  `ffFixed_<Class>`; the schema then checks the items in parse (ProtocolError, authid must be str).
+* `$` -> end-of-string anchor, `[0-9]` for the digit class in the patterns: automatic (patterns are regenerated; the F2
+  witnesses are guarded by the generated anchor / class).
+* F3 (values reaching a constructor `assert`): parse() now validates them (enc_* `is not None`, enc_key/enc_serializer only
+  with enc_algo, payload `== bytes` in all seven classes, UNSUBSCRIBED/UNREGISTERED cross-field check, WELCOME auth* types).
+  The model keeps the constructor assertions (`ctorStage`) and PROVES them unreachable (`ctor_assertions_unreachable`,
+  `parse_total_typed`).  Should a check disappear from parse() again: model != code (correspondence break) and the
+  AssertionError itself is a Violation `AssertionError:<Class>.parse:<field>` (field read off the asserting source line).
+* option ids through `check_or_raise_id`: `OTy.id` / `OTy.listId` (Model/Schema.lean); `force_reregister`: `OTy.boolOrNull`;
+  role feature named `self`: `self` is positional-only in role.py, the model has no TypeError any more; WELCOME.authmethod is
+  written under its own guard (`mm := .truthy`).  A regression of any of these shows as model != code plus a Violation
+  `accepted-but-spec-rejects:<Class>:<field>` / `TypeError:<Class>.parse:roles` / `reparse-differs:Welcome.authmethod`.
+* anything else the model mirrors by hand (marshal conditions `if self.x:`, PUBLISH's args types): edit the entry's `mm` / `ty`
+  in Messages.lean; a stale witness theorem fails with "decide proved the proposition false".
 
 Self-test (scratch copy of /repo/src, VERIF_REPO; 2026-09): see SELFTEST at the end of this file.
 """
@@ -68,10 +75,17 @@ W = Path(__file__).parent / "workers"
 MANIFEST_ENTRY = {
     "technique": "Lean 4 schema engine (generic parse/marshal over 25 declarative schemas) + regex model of the URI patterns; "
                  "theorems on totality/strictness/re-parse; differential tie to Serializer.unserialize on structured, URI and octet inputs",
-    "text": "Proved in Lean for all inputs: the parse model raises only ProtocolError/InvalidUriError except at explicitly "
-            "modelled constructor assertions (parse_total_typed_partial; full statement false today - F3 witnesses), an accepted "
-            "message has every id in [0,2^53], every URI accepted by the regenerated pattern for its flags, every option of its "
-            "checked type, an admissible element count and a known type code (parse_strict), re-marshalling an accepted message "
+    "text": "Proved in Lean for all inputs and all 25 classes: parse raises only ProtocolError/InvalidUriError "
+            "(parse_total_typed, full strength since the F3 repair: the constructor assertions stay in the model and are proved "
+            "unreachable from parse - ctor_assertions_unreachable; no TypeError from a role feature named self), an accepted "
+            "message has every id in [0,2^53] - positional and inside options (parse_strict_ids, parse_strict_option_ids, "
+            "parse_strict_option_id_lists) -, every URI accepted by the regenerated pattern for its flags, every option of its "
+            "checked type, an admissible element count and a known type code (parse_strict); against the Spec that is written "
+            "without reference to the code (protocol id range, intended URI grammar, intended option types, protocol type codes) "
+            "an accepted message of any of the 25 classes has no violation except the args of a PUBLISH, which may be str/bytes "
+            "(parse_strict_spec_partial, parse_strict_spec_but_publish; the full statement ParseStrictSpec therefore still fails, "
+            "for that one open finding, witness kept); "
+            "re-marshalling an accepted message "
             "parses back to it under the stated residual conditions (reparse_equiv_partial); the six _URI_PAT_* / _CUSTOM_ATTRIBUTE / "
             "realm regexes (regenerated from message.py) equal the intended grammar for every string (uri_equiv, custom_attr_equiv, "
             "realm_*_equiv: full since /repo 8a098028; F2 witnesses kept guarded by the generated anchor/class); the 13 forward_for "
@@ -119,7 +133,17 @@ def class_of_tok(tok, code_names):
 
 
 def site_from_line(det):
+    """the field a non-library exception belongs to, from the source line that raised it (used when the model does
+    not raise that class itself, i.e. for every AssertionError / TypeError since the model mirrors the repaired code)"""
     line = det.get("line", "")
+    import re as _re0
+    if "role_cls(" in line:
+        return "roles"                                  # Role*Features(**features)
+    m = _re0.search(r"assert \(request != 0 and (\w+) is None\)", line)
+    if m:
+        return m.group(1)                               # UNSUBSCRIBED / UNREGISTERED cross-field assertion
+    if line.startswith("assert (enc_algo is None and enc_key is None"):
+        return "enc_key"                                # enc_key / enc_serializer without enc_algo
     for tokn in ("forward_for", "enc_algo", "enc_key", "enc_serializer", "payload", "kwargs", "args"):
         if tokn in line:
             return tokn
@@ -231,8 +255,22 @@ def part_struct(ctx, res, code_names, replay_tok=None):
             elif sp.startswith("reject"):
                 # the real code ACCEPTS what the Spec (theorems roles_accept_iff, parse_strict, …) says must be rejected
                 site = a.split(" ")[2] if len(a.split(" ")) > 2 else "?"
-                violate(f"accepted-but-spec-rejects:{cname}:{site}",
-                        f"{cname}.parse accepts an input that must raise {sp.split(' ')[1]} (check at '{site}'): {c['tok'][:160]}", replay)
+                fields = wval.dec(c["real"].split(" ")[3])
+                val = fields.get(site)
+
+                def off_range(x):
+                    return type(x) is int and not 0 <= x <= 2 ** 53
+                if off_range(val) or (isinstance(val, list) and val and all(type(x) is int for x in val)
+                                      and any(off_range(x) for x in val)):
+                    # the model checks this field with check_or_raise_id, the code let the value through
+                    violate(f"id-range-unchecked:{cname}.{site}",
+                            f"{cname}.parse accepts {site}={val!r}: a WAMP id outside [0, 2^53]", replay)
+                elif site in fields and val is not None and site != "roles":
+                    violate(f"wrong-type-accepted:{cname}.{site}",
+                            f"{cname}.parse accepts {site}={val!r}: the model's check at '{site}' raises {sp.split(' ')[1]}", replay)
+                else:
+                    violate(f"accepted-but-spec-rejects:{cname}:{site}",
+                            f"{cname}.parse accepts an input that must raise {sp.split(' ')[1]} (check at '{site}'): {c['tok'][:160]}", replay)
             # re-parse equivalence
             rp = c.get("det", {}).get("reparse")
             if rp is not None:
@@ -556,4 +594,14 @@ Mutation self-test (scratch copy of /repo/src via VERIF_REPO, quick tier, 2026-0
                                                                    rc=1  accepted-but-spec-rejects:Hello:roles, accepted-but-spec-rejects:Welcome:roles
                                                                          (e.g. [1,"realm1",{"roles":{"subscriber":{"features":{"publisher_identification":{}}}}}], via all 4 serializers)
  H1  harmless: GOODBYE option blocks swapped, local renamed, f-string -> format   rc=0 (silent)
+
+Regression test of the 2026-09 repair round (five fix: commits in message.py / role.py; the model mirrors the repaired code).
+Run against the tree WITHOUT the repairs (seeds 0, 1, 2): rc=1, and every one of the 41 known_findings entries that the
+round set to "fixed" is reported as a VIOLATION under its own key with a replay file -
+ R1  Welcome.marshal writes authmethod under `if self.authrole:`     reparse-differs:Welcome.authmethod (C03: roundtrip:Welcome.authmethod:changed)
+ R2  role feature dict splatted with a key `self`                    TypeError:Hello.parse:roles, TypeError:Welcome.parse:roles
+ R3  force_reregister `not in [True, False, None]`                   wrong-type-accepted:Register.force_reregister
+ R4  option ids checked for `int` only (11 sites)                    id-range-unchecked:<Class>.<field> (11 keys)
+ R5  values reaching constructor asserts (29 sites)                  AssertionError:<Class>.parse:<field> (25 keys), reparse-raises:AssertionError:Publish
+Against the repaired tree: rc=0 for seeds 0, 1, 2 (quick) and seed 0 (thorough), none of these keys, no correspondence break.
 """
